@@ -57,19 +57,26 @@ class ShadowModel:
         return sorted(out)
 
     def has_sibling_shape(self, lookup):
-        keys = sorted(self.keys)
-        comp = [b for b, _ in self.store if all(lookup[k] == v for k, v in b.items() if k in lookup)]
-        for i, b1 in enumerate(comp):
-            for b2 in comp[i + 1:]:
+        sorted_keys = sorted(self.keys)
+        """True iff the trie path of some stored entry that this lookup must return crosses a trie node that holds
+        both a wildcard child and a concrete child (whatever the sibling's own compatibility): the shape the known
+        retrieval defect KF-C20-1 needs (retrieve follows only one of the two kinds of branch at such a node)."""
+        keys = sorted_keys
+        bindings = [b for b, _ in self.store]
+        comp = [b for b in bindings if all(lookup[k] == v for k, v in b.items() if k in lookup)]
+        for e in comp:
+            for e2 in bindings:
+                if e2 is e:
+                    continue
                 for k in keys:
-                    in1, in2 = k in b1, k in b2
+                    in1, in2 = k in e, k in e2
                     if in1 and in2:
-                        if b1[k] != b2[k]:
-                            break
+                        if e[k] != e2[k]:
+                            break           # different concrete children: paths diverge without mixing kinds
                         continue
                     if not in1 and not in2:
                         continue
-                    return True
+                    return True             # same node, one wildcard child and one concrete child
         return False
 
 
